@@ -16,6 +16,7 @@ import (
 	"go.nanomsg.org/mangos/v3/protocol/xpull"
 	"go.nanomsg.org/mangos/v3/protocol/xpush"
 	_ "go.nanomsg.org/mangos/v3/transport/inproc"
+	"go.nanomsg.org/mangos/v3/vh/c14"
 	"go.nanomsg.org/mangos/v3/vh/kit"
 	"go.nanomsg.org/mangos/v3/vh/vt"
 	"go.nanomsg.org/mangos/v3/vz/vexplore"
@@ -55,6 +56,10 @@ func init() {
 			out = append(out, &vexplore.Scenario{Name: fmt.Sprintf("%s-listen+dial-peers-hist-D%d", k.n, d), Mode: "hist", Reset: kit.ResetGlobals, Body: func() { pairPeersDialer(k.c, d) },
 				NeedCounters: []string{"dialed-peer-refused", "inbound-peer-refused", "dialed-takeover", "inbound-takeover"}})
 		}
+		out = append(out,
+			&vexplore.Scenario{Name: "pair-dialed-connection-lost-while-attaching", Mode: "sched", Bound: b, Reset: kit.ResetGlobals, Body: c14.LostWhileAttaching},
+			&vexplore.Scenario{Name: "large-bodies-byte-api-retained", Mode: "enum", Reset: kit.ResetGlobals, Body: largeBodies, NeedCounters: []string{"large-bodies-intact"}},
+		)
 		for _, k := range []struct {
 			n string
 			c ctor
@@ -423,6 +428,44 @@ func pairPeersDialer(c ctor, depth int) {
 		return evs
 	}
 	kit.Hist(depth, events, settle)
+	kit.Must("Close", func() { _ = s.Close() })
+}
+
+// largeBodies: PAIR and PULL receive bodies around the largest buffer class (65535, 65536, 65537
+// bytes) and mid-sized ones in between through the byte-slice API and keep every slice; each is,
+// and stays, exactly what the peer sent.
+func largeBodies() {
+	which := kit.ChooseFree(3)
+	c := []ctor{pair.NewSocket, pull.NewSocket, pair1.NewSocket}[which]
+	s, err := c()
+	must(err, "NewSocket")
+	must(s.SetOption(mangos.OptionMaxRecvSize, 0), "MaxRecvSize")
+	ep := vt.Get("largeb")
+	must(s.Listen("vt://largeb"), "Listen")
+	p := ep.Connect()
+	kit.Quiesce()
+	var hdr []byte
+	if which == 2 {
+		hdr = []byte{0, 0, 0, 0}
+	}
+	for i, n := range []int{65536, 9000, 65535, 60000, 65537, 65536, 30000, 10} {
+		body := make([]byte, n)
+		for j := range body {
+			body[j] = byte(i*31 + j*7 + j/253)
+		}
+		p.Deliver(append(append([]byte{}, hdr...), body...))
+		cl := kit.Start("Recv", func() (interface{}, error) { return kit.RecvKeep(s) })
+		kit.Quiesce()
+		if !cl.Done() || cl.Err != nil {
+			kit.Failf("recv-stuck", "Recv of %d bytes: done=%v %s", n, cl.Done(), kit.ErrName(cl.Err))
+		}
+		if got := cl.Val.([]byte); string(got) != string(body) {
+			kit.Failf("large-body-differs", "a body of %d bytes arrived as %d bytes / differing content", n, len(got))
+		}
+	}
+	kit.CheckKept()
+	kit.Count("large-bodies-intact")
+	kit.Observe("%d", which)
 	kit.Must("Close", func() { _ = s.Close() })
 }
 
